@@ -11,7 +11,9 @@ pub mod cffgen;
 pub mod drive;
 pub mod enc;
 pub mod ift;
+pub mod iftgen;
 pub mod mutants;
+pub mod namegen;
 pub mod ttgen;
 
 use drive::{exec_case, groups_for, has_table, FontCase, GroupSpec};
@@ -136,6 +138,16 @@ pub fn workload(ctx: &mut Ctx, args: &Args) {
     if want("ift") {
         ift::sec_ift(ctx, &mut items);
     }
+    // boundary-directed constructive generators (see the module docs)
+    if want("iftd") {
+        iftgen::sec_directed(ctx, &mut items);
+    }
+    if want("strings") {
+        namegen::sec_strings(ctx, &mut items);
+    }
+    if want("memsweep") {
+        sec_memsweep(ctx, &fonts, &mut items);
+    }
     ctx.extra.insert("profile_note".into(), json!("strict = overflow checks + debug assertions (fuzzing configuration); rel = shipping semantics"));
 }
 
@@ -211,6 +223,70 @@ fn sec_corpus(ctx: &mut Ctx, fonts: &[CorpusFont], items: &mut Items) {
     }
 }
 
+/// Caller scratch memory of EVERY length 0..=advertised+8 at EVERY start alignment 0..7 (group `memsweep`
+/// of `drive`) for a handful of small simple and composite glyphs of every glyf corpus font (static and
+/// variable) and of a few generated composite-graph fonts; one work item per (font, candidate slot).
+fn sec_memsweep(ctx: &mut Ctx, fonts: &[CorpusFont], items: &mut Items) {
+    let slots = drive::MEMSWEEP_SLOTS as u32;
+    for f in fonts.iter() {
+        if !has_table(&f.data, b"glyf") {
+            continue;
+        }
+        for slot in 0..slots {
+            if !items.mine(ctx) {
+                continue;
+            }
+            let mut spec = GroupSpec::new("memsweep", 1, 0);
+            spec.index = slot;
+            let fc = FontCase { name: &f.name, mutation: "", category: "memsweep", bytes: &f.data };
+            exec_case(ctx, &fc, &spec, None);
+        }
+    }
+    // hostile fonts x every buffer length: a few random mutants (outline-related tables) of every small glyf font
+    let per_font = ctx.budget(24, 96);
+    for (fi, f) in fonts.iter().enumerate() {
+        if !has_table(&f.data, b"glyf") || f.data.len() > 100_000 {
+            continue;
+        }
+        let dir = vf_core::gen::parse_dir(&f.data, 0);
+        let present: Vec<&[u8; 4]> = [b"maxp", b"glyf", b"loca", b"gvar", b"head", b"fvar", b"cvt ", b"hmtx"].into_iter().filter(|t| dir.iter().any(|r| &r.tag == *t)).collect();
+        let mut buf: Option<Vec<u8>> = None;
+        for j in 0..per_font {
+            if !items.mine(ctx) {
+                continue;
+            }
+            let buf = buf.get_or_insert_with(|| f.data.to_vec());
+            let mut rng = Rng::derive(ctx.seed, "memsweep-mutant", (fi * 10_000 + j) as u64);
+            let mut p = vf_core::gen::Patcher::new();
+            let focus = *rng.pick(&present);
+            vf_core::gen::mutate_random(buf, &dir, &mut rng, &mut p, Some(focus));
+            let desc = format!("random[{}]{}", String::from_utf8_lossy(focus), p.describe());
+            for slot in [0u32, rng.below(slots as u64) as u32] {
+                let mut spec = GroupSpec::new("memsweep", 1, 0);
+                spec.index = slot;
+                let fc = FontCase { name: &f.name, mutation: &desc, category: "memsweep-mutant", bytes: buf };
+                exec_case(ctx, &fc, &spec, None);
+            }
+            p.undo(buf);
+        }
+    }
+    for (j, (kind, param)) in [(1usize, 2usize), (1, 8), (1, 31), (2, 3), (3, 0), (0, 2), (4, 3)].iter().enumerate() {
+        let mut rng = Rng::derive(1, "memsweep-composite", j as u64);
+        let mut shape = String::new();
+        let bytes = ttgen::gen_composite_font(*kind, *param, &mut rng, &mut shape).build();
+        let name = format!("memsweep-composite#{}", j);
+        for slot in 0..slots {
+            if !items.mine(ctx) {
+                continue;
+            }
+            let mut spec = GroupSpec::new("memsweep", 1, 0);
+            spec.index = slot;
+            let fc = FontCase { name: &name, mutation: &shape, category: "memsweep", bytes: &bytes };
+            exec_case(ctx, &fc, &spec, None);
+        }
+    }
+}
+
 /// API misuse across fonts: hinting instance / glyph styles of font A with
 /// glyphs of font B, reconfigure across fonts.
 fn sec_misuse(ctx: &mut Ctx, fonts: &[CorpusFont], items: &mut Items) {
@@ -256,6 +332,10 @@ fn replay(ctx: &mut Ctx, _args: &Args, rec: &Value, input: Option<&[u8]>) {
     ctx.rule = "replay of one recorded case".into();
     let detail = &rec["detail"];
     let case = if detail["case"].is_object() { &detail["case"] } else { detail };
+    if let Some(i) = case["iftd_item"].as_u64() {
+        iftgen::run_item(ctx, i as usize, case["iftd_seed"].as_str().and_then(|s| s.parse().ok()).unwrap_or(ctx.seed));
+        return;
+    }
     if let Some(i) = case["ift_item"].as_u64() {
         ift::run_item(ctx, i as usize, case["ift_seed"].as_str().and_then(|s| s.parse().ok()).unwrap_or(ctx.seed));
         return;
@@ -267,6 +347,10 @@ fn replay(ctx: &mut Ctx, _args: &Args, rec: &Value, input: Option<&[u8]>) {
         .filter_map(|s| GroupSpec::from_label(s.split_once(':').filter(|(k, _)| matches!(*k, "slow" | "hang") || k.starts_with("abort") || k.starts_with("exit")).map(|x| x.1).unwrap_or(s)))
         .next();
     if let Some((name, _, _)) = &from_label {
+        if let Some(i) = name.strip_prefix("iftd#").and_then(|s| s.parse::<usize>().ok()) {
+            iftgen::run_item(ctx, i, rec["seed"].as_u64().unwrap_or(ctx.seed));
+            return;
+        }
         if let Some(i) = name.strip_prefix("ift#").and_then(|s| s.parse::<usize>().ok()) {
             ift::run_item(ctx, i, rec["seed"].as_u64().unwrap_or(ctx.seed));
             return;
